@@ -216,6 +216,8 @@ func (in *c16Inst) Menu(nd mc.Node, depth int) []rBlock {
 			all = append(all, rOp{Kind: "remove", Who: i})
 		}
 		m = append(m,
+			rBlock{Dt: 1, Ops: []rOp{{Kind: "vote", Var: "without-first-voter"}}},
+			rBlock{Dt: 1, Ops: []rOp{{Kind: "vote", Var: "without-last-voter"}}},
 			rBlock{Dt: 1, Ops: []rOp{{Kind: "remove", Who: 1}}},
 			rBlock{Dt: 1, Ops: all},
 			rBlock{Dt: 1, Ops: []rOp{{Kind: "add", Who: 1}}}, // re-joining address
@@ -428,10 +430,15 @@ func (in *c16Inst) Step(nd mc.Node, b rBlock, path []rBlock, silent bool) mc.Nod
 			var marks []int
 			signers = append(signers, in.members[in.byAddr[cur.Relayer.Proposer]])
 			for i, v := range cur.Relayer.Voters {
+				// a quorum need not be everybody, nor a prefix of the voter list
+				if (o.Var == "without-first-voter" && i == 0) || (o.Var == "without-last-voter" && i == len(cur.Relayer.Voters)-1) {
+					continue
+				}
 				signers = append(signers, in.members[in.byAddr[v]])
 				marks = append(marks, i)
 			}
-			expectOK := true
+			// reference quorum: the proposer plus the marked voters are at least two thirds of the group
+			expectOK := 3*(len(marks)+1) >= 2*(len(cur.Relayer.Voters)+1)
 			if o.Var == "with-joiner" {
 				signers = append(signers, in.members[in.nGen])
 				marks = append(marks, len(cur.Relayer.Voters))
